@@ -243,6 +243,7 @@ func (rc *RuleClient) Run() error {
 	}
 
 	run := func(id string, pts data.Points) {
+		defer func() { verifEvent("rule.batchDone", rc.config.ID, rc.config) }()
 		var active, changed bool
 		var err error
 
@@ -355,6 +356,7 @@ func (rc *RuleClient) sendPoint(id string, point data.Point) error {
 		// setting Origin
 		point.Origin = rc.config.ID
 	}
+	verifEvent("rule.send", rc.config.ID, id, point)
 	return SendNodePoint(rc.nc, id, point, false)
 }
 
@@ -431,6 +433,7 @@ func (rc *RuleClient) processError(errS string) {
 // Currently, this function only processes the first point that matches -- this should
 // handle all current uses.
 func (rc *RuleClient) ruleProcessPoints(nodeID string, points data.Points) (bool, bool, error) {
+	verifEvent("rule.process", rc.config.ID, nodeID, points)
 	for _, p := range points {
 		for i, c := range rc.config.Conditions {
 			var active bool
